@@ -320,8 +320,8 @@ def RC.empty : RC := ⟨[], Bloom.new 1000 3, [], false, false⟩
 
 /-- `RegisterRoute` for a main-tree route, compiler part -/
 def rcRegister (hash : Bytes → Nat) (rc : RC) (rid : Nat) (g : Reg) : RC :=
-  let cr := compileRoute g.method g.fullPath g.cons rid
-  (rc.remove hash g.method g.fullPath).add hash cr
+  let cr := compileRoute g.method (fullPathOf g) g.cons rid
+  (rc.remove hash g.method (fullPathOf g)).add hash cr
 
 def rcBuildFrom (hash : Bytes → Nat) (rc : RC) : Nat → List Reg → RC
   | _, [] => rc
